@@ -44,7 +44,8 @@ func (actScen) Rule(prop string) string {
 	return "case = a spokfile of 1-5 tasks (0-2 commands printing distinct markers to stdout and stderr, with/without docstrings, with/without file and task dependencies, with/without a task named default), 0-3 variables, and 2-6 invocations over {--json, --quiet, --force, plain, --show, --vars, no arguments}, first and repeated so that skipped tasks appear. Oracle: --json prints exactly one JSON document listing exactly the closure in execution order with skipped flags and, per executed command, its text, stdout, stderr and status; --quiet prints nothing; --show lists every task once sorted by name with its docstring; --vars every variable with its value; no arguments runs default or lists. distinct_nontrivial = distinct (flag set, number of tasks run/skipped, default defined?, docs pattern) tuples."
 }
 
-var acFlagSets = [][]string{{}, {"--json"}, {"--quiet"}, {"--force"}, {"--force", "--json"}, {"--debug"}, {"--json", "--debug"}, {"--quiet", "--debug"}}
+var acFlagSets = [][]string{{}, {"--json"}, {"--quiet"}, {"--force"}, {"--force", "--json"}, {"--debug"}, {"--json", "--debug"}, {"--quiet", "--debug"},
+	{"--json", "--quiet"}, {"--json", "--quiet", "--force"}, {"-j"}, {"-q"}, {"-f", "-j"}}
 var acCwds = []string{"", "", "", "sub", "sub/deep"}
 
 func (actScen) Gen(r *Rng, cfg GenConfig) any {
@@ -118,14 +119,22 @@ func (actScen) Gen(r *Rng, cfg GenConfig) any {
 		default:
 			a.Args = []string{"--show", Pick(r, []string{"--quiet", "--json", "--debug"})}
 		}
+		if cfg.Prop == "C19" && r.Chance(1, 10) {
+			// name the spokfile explicitly: the real one, or a sibling whose name differs only in letter case
+			a.Args = append(a.Args, "--spokfile", Pick(r, []string{"{PROJ}/spokfile", "{PROJ}/Spokfile", "{PROJ}/sub/SPOKFILE"}))
+			c.Tree["Spokfile"] = "task variant() {\n    echo   variant\n}\n"
+			c.Tree["sub/SPOKFILE"] = "task   shouting( ) {\n echo loud\n}\n"
+		}
 		c.Actions = append(c.Actions, a)
 	}
 	return c
 }
 
+var shortFlag = map[string]string{"--json": "-j", "--quiet": "-q", "--force": "-f", "--show": "-s", "--clean": "-c"}
+
 func hasFlag(args []string, f string) bool {
 	for _, a := range args {
-		if a == f {
+		if a == f || (shortFlag[f] != "" && a == shortFlag[f]) {
 			return true
 		}
 	}
@@ -191,7 +200,26 @@ func (actScen) Exec(w *World, cc any, prop string) *Result {
 			}
 		}
 		pre := Snap(w.Home)
-		obs := w.Invoke(Invocation{Args: a.Args, Cwd: cwd, Env: w.BaseEnv(), Inv: ai, Sched: c.Sched, Faults: NoFaults()})
+		args := append([]string{}, a.Args...)
+		named := ""
+		for i := range args {
+			if strings.HasPrefix(args[i], "{PROJ}/") {
+				named = strings.TrimPrefix(args[i], "{PROJ}/")
+				args[i] = filepath.Join(proj, filepath.FromSlash(named))
+			}
+		}
+		if named != "" {
+			// the file named with --spokfile is the spokfile in use (when the name is accepted at all)
+			useDir, useKind = filepath.ToSlash(filepath.Dir(named)), "named"
+			if useDir == "." {
+				useDir = ""
+			}
+			if named == "spokfile" {
+				useKind = c.Kind
+			}
+			res.count("probe:spokfile_named_on_command_line")
+		}
+		obs := w.Invoke(Invocation{Args: args, Cwd: cwd, Env: w.BaseEnv(), Inv: ai, Sched: c.Sched, Faults: NoFaults()})
 		res.Ops++
 		res.Steps += len(obs.Trace)
 		post := Snap(w.Home)
@@ -219,6 +247,9 @@ func (actScen) Exec(w *World, cc any, prop string) *Result {
 				allowed[initTarget] = true
 				allowed[initIgnore] = true
 			}
+		case isFmt && useKind == "named":
+			// whatever name is accepted, --fmt may rewrite the file that was named and nothing else
+			allowed[relHome(named)] = true
 		case isFmt:
 			if useKind == "valid" || useKind == "demo" {
 				allowed[relHome(filepath.Join(useDir, "spokfile"))] = true
@@ -440,8 +471,12 @@ func (s *projState) judgeReport(res *Result, c *ActCase, ai int, a Act, obs *Obs
 		return false
 	}
 	if quiet {
+		// --quiet and --json together: printing nothing is fine (quiet wins), and so is printing the
+		// report (json wins) — but a report that is printed must be a faithful one
 		res.count("accept_either:quiet_with_json")
-		return false
+		if strings.TrimSpace(obs.Stdout) == "" {
+			return false
+		}
 	}
 	var jr []jsonResult
 	dec := json.NewDecoder(strings.NewReader(obs.Stdout))
